@@ -194,3 +194,16 @@ func VerifEntryName(v interface{}) string {
 	}
 	return ""
 }
+
+// VerifConns returns the ids of the connections registered for token reset
+// fan-out, sorted.
+func (c *Cache) VerifConns() []string {
+	c.mu.Lock()
+	defer c.mu.Unlock()
+	out := make([]string, 0, len(c.conns))
+	for cid := range c.conns {
+		out = append(out, cid)
+	}
+	sort.Strings(out)
+	return out
+}
